@@ -50,6 +50,11 @@ func cmdNetHostile(args []string) int {
 		fmt.Fprintf(os.Stderr, "LIVE %d handshake message %s %d %s %d\n", sc.Hs[i].ID, sc.Hs[i].Dir, sc.Hs[i].Msg, sc.Hs[i].Mut, sc.Hs[i].Arg)
 		bw.Flush()
 		if err := r.RunHs(&sc.Hs[i]); err != nil {
+			if err == netfam.ErrHsHung {
+				bw.Flush()
+				fmt.Printf("{\"cases\":%d}\n", r.Cases)
+				os.Exit(0) // (a goroutine of the hung node may be spinning: leave at once)
+			}
 			fmt.Fprintln(os.Stderr, "handshake case", sc.Hs[i].ID, ":", err)
 			return 2
 		}
